@@ -258,6 +258,7 @@ func hlProfile(name string) map[string]int {
 		for _, k := range []string{"acreate", "aoptin", "axfer", "aclose", "afreeze", "aclawback", "adestroy", "aconfig", "ainvalid"} {
 			w[k] *= 4
 		}
+		w["aclosegroup"] = 10 // only here: the other profiles' PRNG streams stay as they were
 	case "apps":
 		for _, k := range []string{"appcreate", "appoptin", "appcall", "appclose", "appclear", "appdelete", "appupdate", "appfund", "box", "inner", "appfail"} {
 			w[k] *= 4
@@ -828,6 +829,57 @@ func (g *hlGen) build(kind string, ev *eval.BlockEvaluator) []*txntest.Txn {
 		}
 		if len(out) < 2 {
 			return nil
+		}
+		return out
+	case "aclosegroup":
+		// one atomic group in which a holder closes its holding out and a LATER member of the same
+		// group touches that (now absent) holding again: spends from it, receives into it, is clawed
+		// back from, or opts in again first (the only legal continuation)
+		as := g.liveAssets()
+		if len(as) == 0 {
+			return nil
+		}
+		a := as[r.Intn(len(as))]
+		var hs []basics.Address
+		for _, ha := range g.holders(a.idx) {
+			if ha != a.creator {
+				hs = append(hs, ha)
+			}
+		}
+		if len(hs) == 0 {
+			return nil
+		}
+		snd := hs[r.Intn(len(hs))]
+		h, _ := m.assetHold[hlRes{snd, basics.CreatableIndex(a.idx)}].at(rnd)
+		closeTo := a.creator
+		if len(hs) > 1 && r.Bool() {
+			closeTo = hs[r.Intn(len(hs))]
+		}
+		other := a.creator
+		if len(hs) > 1 && r.Bool() {
+			other = hs[r.Intn(len(hs))]
+		}
+		mk := func(t txntest.Txn) *txntest.Txn { t.Note = g.nextNote(); return &t }
+		out := []*txntest.Txn{mk(txntest.Txn{Type: protocol.AssetTransferTx, Sender: snd, XferAsset: a.idx, AssetReceiver: closeTo, AssetAmount: 0, AssetCloseTo: closeTo})}
+		if r.Chance(1, 3) {
+			out = append(out, mk(txntest.Txn{Type: protocol.PaymentTx, Sender: g.funded(), Receiver: g.anyAddr(), Amount: 1}))
+		}
+		switch r.Intn(5) {
+		case 0: // spend from the closed holding
+			out = append(out, mk(txntest.Txn{Type: protocol.AssetTransferTx, Sender: snd, XferAsset: a.idx, AssetReceiver: other, AssetAmount: []uint64{0, 1, h.Amount}[r.Intn(3)]}))
+		case 1: // receive into the closed holding
+			out = append(out, mk(txntest.Txn{Type: protocol.AssetTransferTx, Sender: other, XferAsset: a.idx, AssetReceiver: snd, AssetAmount: uint64(r.Intn(2))}))
+		case 2: // clawback from the closed holding
+			cb := a.params.Clawback
+			if cb.IsZero() {
+				cb = g.anyKeyed()
+			}
+			out = append(out, mk(txntest.Txn{Type: protocol.AssetTransferTx, Sender: cb, XferAsset: a.idx, AssetSender: snd, AssetReceiver: other, AssetAmount: []uint64{0, 1, h.Amount}[r.Intn(3)]}))
+		case 3: // close it out a second time
+			out = append(out, mk(txntest.Txn{Type: protocol.AssetTransferTx, Sender: snd, XferAsset: a.idx, AssetReceiver: other, AssetAmount: 0, AssetCloseTo: other}))
+		default: // legal: opt in again, then receive
+			out = append(out, mk(txntest.Txn{Type: protocol.AssetTransferTx, Sender: snd, XferAsset: a.idx, AssetReceiver: snd}))
+			out = append(out, mk(txntest.Txn{Type: protocol.AssetTransferTx, Sender: other, XferAsset: a.idx, AssetReceiver: snd, AssetAmount: uint64(r.Intn(2))}))
 		}
 		return out
 	case "badgroup":
